@@ -10,7 +10,11 @@
 use super::FixtureDatabase;
 use once_cell::sync::Lazy;
 use rustpython_parser::ast::{Expr, Stmt};
+#[cfg(not(pytest_language_server_verif))]
 use std::collections::HashSet;
+// verification hook: solver-friendly set/map stand-ins of the harness crate (see /verif/DESIGN.md §9)
+#[cfg(pytest_language_server_verif)]
+use crate::verif_collections::HashSet;
 use std::path::{Path, PathBuf};
 use std::sync::Arc;
 use tracing::{debug, info};
